@@ -67,7 +67,9 @@ def _energy(system, sol):
     M = sysbuild.dense(system.M(system.t0, system.q0))
     t, q, u = np.asarray(sol.t), np.asarray(sol.q), np.asarray(sol.u)
     T = np.array([0.5 * u[k] @ M @ u[k] for k in range(len(t))])
-    V = np.array([system.E_pot(t[k], q[k]) for k in range(len(t))])
+    # revisit the stored states backwards from the final one (the revolute joints' angle tracking is at the final state
+    # after the run; a jump back to t0 would be taken for full rotations of a joint that carries a torsional spring)
+    V = np.array([system.E_pot(t[k], q[k]) for k in reversed(range(len(t)))])[::-1]
     return T, V
 
 
